@@ -276,7 +276,7 @@ func (p *Proj) topRoot() string {
 // sourceFilesOf: the plain (not generated) source files a target reads, files inside its source directories included
 func (p *Proj) sourceFilesOf(t *Tgt) []string {
 	var out []string
-	for _, s := range t.Srcs {
+	for _, s := range p.srcsOf(t) {
 		if p.isGenerated(s) {
 			continue
 		}
@@ -313,7 +313,7 @@ func (g *gen) add(op Op) {
 		// C14's exclusion: a label whose record a collection removed is never re-created
 		used := map[string]bool{}
 		for _, t := range g.p.live() {
-			for _, s := range t.Srcs {
+			for _, s := range g.p.srcsOf(t) {
 				used[s] = true
 			}
 		}
@@ -321,7 +321,7 @@ func (g *gen) add(op Op) {
 			if t.Removed {
 				g.collected[t.Label()] = true
 			}
-			for _, s := range t.Srcs {
+			for _, s := range g.p.srcsOf(t) {
 				if !used[s] {
 					g.collected[s] = true
 				}
@@ -545,7 +545,7 @@ func (g *gen) uniformEdit() {
 		if len(fs) > 0 && r.chance(60) {
 			g.edit(Edit{Kind: "delete", Path: fs[r.below(len(fs))]})
 		} else {
-			for _, s := range t.Srcs {
+			for _, s := range p.srcsOf(t) {
 				if _, ok := p.Files[s]; !ok && !p.isDir(s) && !p.isGenerated(s) {
 					g.edit(Edit{Kind: "create", Path: s, Text: r.text()})
 					break
@@ -610,7 +610,7 @@ func (g *gen) uniformEdit() {
 
 func (g *gen) dirEdit(t *Tgt) bool {
 	r := g.r
-	for _, s := range t.Srcs {
+	for _, s := range g.p.srcsOf(t) {
 		if !g.p.isDir(s) {
 			continue
 		}
@@ -805,7 +805,7 @@ func (g *gen) tplDelGen() {
 func (g *gen) tplRename() {
 	for _, t := range g.p.live() {
 		has := false
-		for _, s := range t.Srcs {
+		for _, s := range g.p.srcsOf(t) {
 			if g.p.isDir(s) {
 				has = true
 			}
@@ -1102,7 +1102,7 @@ func enumCrashHistories(r *rng, nproj int, maxLabels int) []*History {
 				continue
 			}
 			fns = append(fns, t.Label())
-			for _, s := range t.Srcs {
+			for _, s := range p.srcsOf(t) {
 				if l := sourceLabelOf(s); !contains(srcs, l) {
 					srcs = append(srcs, l)
 				}
@@ -1132,7 +1132,7 @@ func enumCrashHistories(r *rng, nproj int, maxLabels int) []*History {
 				return &Op{Kind: "edit", Edit: &Edit{Kind: "code", Target: label}}
 			}
 			for _, t := range p.live() {
-				for _, s := range t.Srcs {
+				for _, s := range p.srcsOf(t) {
 					if sourceLabelOf(s) != label {
 						continue
 					}
